@@ -56,8 +56,8 @@ pub const DEFS: [Def; 17] = [
     Def { name: "val16", text: "val16 Ty1 ::= { a 3, b TRUE }", deps: &[1], is_value: true },
 ];
 
-pub const TYPE_FAULTS: [&str; 6] = ["REAL", "Videotex", "TIME", "inverted-range", "undefined-ref", "macro"];
-pub const VALUE_FAULTS: [&str; 4] = ["real-value", "real-seq-value", "undefined-type-value", "all-value"];
+pub const TYPE_FAULTS: [&str; 7] = ["REAL", "Videotex", "TIME", "inverted-range", "undefined-ref", "macro", "selection-undefined"];
+pub const VALUE_FAULTS: [&str; 7] = ["real-value", "real-seq-value", "undefined-type-value", "all-value", "local-time-value", "inline-enum-value", "optional-omitted-value"];
 
 fn fault_text(d: &Def, kind: &str) -> String {
     let n = d.name;
@@ -72,6 +72,10 @@ fn fault_text(d: &Def, kind: &str) -> String {
         "real-seq-value" => format!("{n} REAL ::= {{ mantissa 1, base 10, exponent 2 }}"),
         "undefined-type-value" => format!("{n} Undefined-Type ::= 5"),
         "all-value" => format!("{n} INTEGER ::= ALL"),
+        "selection-undefined" => format!("{n} ::= x < Undefined-Choice"),
+        "local-time-value" => format!("{n} GeneralizedTime ::= \"19990102030405\""),
+        "inline-enum-value" => format!("{n} ENUMERATED {{ on, off }} ::= off"),
+        "optional-omitted-value" => format!("{n} SEQUENCE {{ a INTEGER, b BOOLEAN OPTIONAL }} ::= {{ a 1 }}"),
         _ => unreachable!(),
     }
 }
@@ -168,7 +172,8 @@ fn check_bad_module(c: &Case, srcs: &Vec<String>) -> CaseResult {
     let mut discs = vec![];
     let need = c.faults.len();
     // an unsupported definition may still yield an item (e.g. an inverted range kept as written): then no warning is owed
-    let generated_bad = (0..3).filter(|n| gen.contains(&format!("Bad{n}")) || gen.contains(&format!("BAD{n}"))).count();
+    // (the TypeScript backend keeps the spelling of value names: `export const bad0`)
+    let generated_bad = (0..3).filter(|n| gen.contains(&format!("Bad{n}")) || gen.contains(&format!("BAD{n}")) || (c.ts && gen.contains(&format!("const bad{n} ")))).count();
     if warnings.len() + generated_bad < need {
         discs.push(Disc::new(format!("lost|bad-module|ts={}|faults={}|warnings={}", c.ts, kinds.join("+"), warnings.len()), format!("{need} unsupported definitions in module Bad, {} warnings, {generated_bad} generated\nwarnings: {warnings:?}\n{dump}\n--- generated ---\n{gen}", warnings.len())));
     }
@@ -194,7 +199,7 @@ impl Prop for C10 {
         "C10"
     }
     fn rule(&self) -> String {
-        "base: 16 definitions of every kind (constrained INTEGER, SEQUENCE, CHOICE, ENUMERATED, SEQUENCE OF, alias, SET, BIT STRING with named bits, hyphenated name; values of INTEGER, referenced INTEGER, string, OID, enumeral, CHOICE, named bits) with a dependency graph, in one module or split over two modules with IMPORTS, in forward and reverse textual order, both backends; faults: every way of replacing k=1 (quick) / k<=2 (thorough) definitions by a parseable-but-unsupported one of each kind {REAL, VideotexString, TIME type assignment, inverted range, reference to an undefined type, MACRO definition; REAL value (decimal and { mantissa, base, exponent } notation), value of an undefined type, ALL value}. Oracle: every top-level assignment of the faulted input is generated under its mangled name in its own module, or named by a warning, or covered by an anonymous warning (count), or is a class/object/template (a MACRO is none of these and must be warned about); locality: every definition that does not transitively depend on a faulted one has exactly the items of the fault-free compilation. Non-trivial: the faulted input compiled to Ok and was accounted.".into()
+        "base: 16 definitions of every kind (constrained INTEGER, SEQUENCE, CHOICE, ENUMERATED, SEQUENCE OF, alias, SET, BIT STRING with named bits, hyphenated name; values of INTEGER, referenced INTEGER, string, OID, enumeral, CHOICE, named bits) with a dependency graph, in one module or split over two modules with IMPORTS, in forward and reverse textual order, both backends; faults: every way of replacing k=1 (quick) / k<=2 (thorough) definitions by a parseable-but-unsupported one of each kind {REAL, VideotexString, TIME type assignment, inverted range, reference to an undefined type, MACRO definition; REAL value (decimal and { mantissa, base, exponent } notation), value of an undefined type, ALL value, local-time value, value of an ENUMERATED / SEQUENCE type written in the value assignment; selection type of an undefined CHOICE}. Oracle: every top-level assignment of the faulted input is generated under its mangled name in its own module, or named by a warning, or covered by an anonymous warning (count), or is a class/object/template (a MACRO is none of these and must be warned about); locality: every definition that does not transitively depend on a faulted one has exactly the items of the fault-free compilation. Non-trivial: the faulted input compiled to Ok and was accounted.".into()
     }
     fn selftest(&self) -> Result<u64, String> {
         for layout in ["one", "two"] {
